@@ -352,6 +352,92 @@ func harnesses(r *fw.Run) []fw.HarnessSpec {
 		c.Outcome(out)
 	})
 
+	// exotic cells of every announced length: a pruned branch cell with every level mask 1..7 and every data length up to
+	// its full size + 3 (also merkle proof / update and library cells of every length), as the root, under an ordinary
+	// parent whose mask asks for the child's higher levels, under a merkle proof parent, and two levels down; the parser
+	// may refuse or return them, and hashing / printing / re-serialising what it returned must not panic
+	add("exotic-cell-lengths", 0, 8, func(c *enum.Ctx) {
+		typ := []byte{1, 2, 3, 4}[c.ChooseFree(4)]
+		mask := 0
+		maxLen := 40
+		switch typ {
+		case 1:
+			mask = 1 + c.ChooseFree(7)
+			maxLen = 2 + 3*34 + 3
+		case 4:
+			maxLen = 72
+		}
+		n := c.ChooseFree(maxLen + 1)
+		parent := c.ChooseFree(5)
+		refs := 0
+		if typ == 3 {
+			refs = 1
+		} else if typ == 4 {
+			refs = 2
+		}
+		child := make([]byte, n)
+		for i := range child {
+			child[i] = byte(i * 7)
+		}
+		if n > 0 {
+			child[0] = typ
+		}
+		if typ == 1 && n > 1 {
+			child[1] = byte(mask)
+			// stored depths stay small (below the depth limit)
+			hashes := 0
+			for m := mask; m != 0; m >>= 1 {
+				hashes += m & 1
+			}
+			for i := 2 + 32*hashes; i < n; i++ {
+				child[i] = byte(i & 1)
+			}
+		}
+		merkle := make([]byte, 35)
+		merkle[0] = 3
+		type raw struct {
+			d1   byte
+			data []byte
+			refs []int
+		}
+		leaf := raw{d1: 0, data: []byte{0xA5}}
+		ch := raw{d1: byte(refs) + 8 + byte(32*mask), data: child}
+		var cells []raw
+		switch parent {
+		case 0: // the exotic cell is the root
+			cells = []raw{ch}
+		case 1: // ordinary parent of level 2 (mask 011)
+			cells = []raw{{d1: 1 + 32*3, refs: []int{1}}, ch}
+		case 2: // ordinary parent whose mask is the child's
+			cells = []raw{{d1: 1 + byte(32*mask), data: []byte{0x11}, refs: []int{1}}, ch}
+		case 3: // merkle proof parent
+			cells = []raw{{d1: 1 + 8, data: merkle, refs: []int{1}}, ch}
+		case 4: // merkle proof above an ordinary cell of level 7 above the exotic cell
+			cells = []raw{{d1: 1 + 8, data: merkle, refs: []int{1}}, {d1: 1 + 32*7, data: []byte{0x22}, refs: []int{2}}, ch}
+		}
+		for i := 0; i < refs; i++ {
+			cells[len(cells)-1].refs = append(cells[len(cells)-1].refs, len(cells))
+		}
+		if refs > 0 {
+			cells = append(cells, leaf)
+		}
+		var data []byte
+		for _, rc := range cells {
+			data = append(data, rc.d1, byte(2*len(rc.data)))
+			data = append(data, rc.data...)
+			for _, rf := range rc.refs {
+				data = append(data, byte(rf))
+			}
+		}
+		b := []byte{0xb5, 0xee, 0x9c, 0x72, 1, 2, byte(len(cells)), 1, 0}
+		b = append(b, put(uint64(len(data)), 2)...)
+		b = append(b, 0)
+		b = append(b, data...)
+		c.Case(b, true)
+		c.Sample(map[string]any{"exotic_type": typ, "mask": mask, "data_bytes": n, "parent": parent})
+		c.Label("exotic type %d mask %03b with %d data bytes, parent kind %d", typ, mask, n, parent)
+		c.Outcome(probe(c, b, "exotic-len", false))
+	})
 	add("adversarial-headers", r.Pick(2, 3), 32, func(c *enum.Ctx) { adversarial(c, seed) })
 	return hs
 }
